@@ -147,16 +147,25 @@ def verify(contract, scratch, tucache, bounded=0, bcase=None):
         inits = ctor_inits(fn)
         if inits:
             run_inits(ex, st, inits, contract)
-        if getattr(contract, 'slice_from', None):
+        if getattr(contract, 'slice_from', None) or getattr(contract, 'slice_stmt', None):
             stmts_all = body(fn).get('inner', [])
             start = None
-            for i_, s_ in enumerate(stmts_all):
-                if s_.get('kind') == 'DeclStmt' and any(c.get('name') == contract.slice_from for c in s_.get('inner', [])):
-                    start = i_
-                    break
-            if start is None:
-                raise ExtractionError(f'{contract.name}: slice start marker "{contract.slice_from}" not found')
-            stmts = stmts_all[start:]
+            if getattr(contract, 'slice_stmt', None):
+                # one top-level statement of the function, chosen by kind and ordinal (e.g. the only while loop)
+                kind_, ord_ = contract.slice_stmt
+                hits = [i_ for i_, s_ in enumerate(stmts_all) if s_.get('kind') == kind_]
+                if len(hits) <= ord_:
+                    raise ExtractionError(f'{contract.name}: statement {kind_}#{ord_} not found at the top level of the function')
+                start = hits[ord_]
+                stmts = stmts_all[start:start + 1]
+            else:
+                for i_, s_ in enumerate(stmts_all):
+                    if s_.get('kind') == 'DeclStmt' and any(c.get('name') == contract.slice_from for c in s_.get('inner', [])):
+                        start = i_
+                        break
+                if start is None:
+                    raise ExtractionError(f'{contract.name}: slice start marker "{contract.slice_from}" not found')
+                stmts = stmts_all[start:]
             # everything declared before the range is an input of the slice
             declared_before = {}
             for s_ in stmts_all[:start]:
@@ -172,7 +181,7 @@ def verify(contract, scratch, tucache, bounded=0, bcase=None):
                 d_ = declared_before[vid]
                 nm_, v_ = bind_param(ex, st, d_, 0)
                 ex.args0[nm_] = v_
-            info['slice'] = {'from': contract.slice_from, 'statements': len(stmts), 'inputs': sorted(declared_before[v]['name'] for v in used)}
+            info['slice'] = {'from': getattr(contract, 'slice_from', None) or str(contract.slice_stmt), 'statements': len(stmts), 'inputs': sorted(declared_before[v]['name'] for v in used)}
             setup_slice = getattr(contract, 'slice_setup', None)
             if setup_slice:
                 setup_slice(ex, st)
